@@ -5,8 +5,10 @@ import (
 	"encoding/base64"
 	"encoding/json"
 	"fmt"
+	"os"
 	"sort"
 	"strings"
+	"time"
 
 	"github.com/bluenviron/gortsplib/v5/pkg/base"
 
@@ -395,7 +397,11 @@ func (g *gen) keyCase(name string) {
 func (g *gen) memoryCases() {
 	mb := uint64(1 << 20)
 	run := func(name string, stream []byte, bound uint64, noModel bool) {
+		t := time.Now()
 		RunCase(g.c, &StreamCase{Name: "memory-" + name, Carrier: "direct", Stream: hexs(stream), Parts: [][]int{{}}, MaxAlloc: bound, NoModel: noModel})
+		if d := time.Since(t); d > 500*time.Millisecond {
+			g.c.Note(fmt.Sprintf("memory case %s took %.1fs", name, d.Seconds()))
+		}
 	}
 	run("cl-1GiB", []byte("RTSP/1.0 200 OK\r\nContent-Length: 1073741824\r\n\r\nabc"), mb, false)
 	run("cl-2^64-1", []byte("ANNOUNCE rtsp://h/ RTSP/1.0\r\nContent-Length: 18446744073709551615\r\n\r\nabc"), mb, false)
@@ -403,17 +409,17 @@ func (g *gen) memoryCases() {
 	run("cl-limit-truncated", []byte(fmt.Sprintf("RTSP/1.0 200 OK\r\nContent-Length: %d\r\n\r\nabc", maxBody)), mb, false)
 	var sb strings.Builder
 	sb.WriteString("RTSP/1.0 200 OK\r\n")
-	for i := 0; i < 1000000; i++ {
+	for i := 0; i < 100000; i++ {
 		sb.WriteString("A: b\r\n")
 	}
 	sb.WriteString("\r\n")
-	run("headers-10^6", []byte(sb.String()), 2*mb, true)
+	run("headers-10^5", []byte(sb.String()), 2*mb, true)
 	run("method-10^6", []byte("OP"+rep("T", 1000000)+" * RTSP/1.0\r\n\r\n"), mb, true)
 	run("url-10^6", []byte("OPTIONS rtsp://h/"+rep("u", 1000000)+" RTSP/1.0\r\n\r\n"), mb, true)
 	run("key-10^6", []byte("RTSP/1.0 200 OK\r\n"+rep("k", 1000000)+": v\r\n\r\n"), mb, true)
 	run("value-10^6", []byte("RTSP/1.0 200 OK\r\nK: "+rep("v", 1000000)+"\r\n\r\n"), mb, true)
-	run("spaces-8MiB", []byte("RTSP/1.0 200 OK\r\nK:"+rep(" ", 8<<20)+"v\r\n\r\n"), mb, true)
-	run("garbage-4MiB", bytes.Repeat([]byte("garbage!"), 1<<19), mb, true)
+	run("spaces-2MiB", []byte("RTSP/1.0 200 OK\r\nK:"+rep(" ", 2<<20)+"v\r\n\r\n"), mb, true)
+	run("garbage-1MiB", bytes.Repeat([]byte("garbage!"), 1<<17), mb, true)
 	// the largest element the limits admit
 	sb.Reset()
 	sb.WriteString("RTSP/1.0 200 OK\r\n")
@@ -634,35 +640,53 @@ func Run(c *corr.Ctx) {
 		return
 	}
 	g := &gen{c: c, r: c.Rng}
+	if os.Getenv("VERIF_FRAME_ONLY") == "e2e" { // debugging aid
+		runE2E(c, g)
+		return
+	}
+	t0 := time.Now()
+	phase := func(name string) {
+		c.Note(fmt.Sprintf("phase %s: %.1fs", name, time.Since(t0).Seconds()))
+		t0 = time.Now()
+	}
 	runCorpus(c)
 	statusTable(c)
 	g.handWritten()
 	g.b64HandWritten()
+	phase("corpus+hand-written")
 	g.boundarySweep()
+	phase("boundary")
 	g.memoryCases()
-	for i := 0; i < c.N(400, 6000); i++ {
+	phase("memory")
+	for i := 0; i < c.N(400, 4000); i++ {
 		g.writtenCase(fmt.Sprintf("written-%d", i), c.N(5, 8), i%4 == 0)
 	}
-	for i := 0; i < c.N(600, 12000); i++ {
+	phase("written")
+	for i := 0; i < c.N(600, 8000); i++ {
 		g.mutatedCase(fmt.Sprintf("mutated-%d", i))
 	}
-	for i := 0; i < c.N(3, 30); i++ {
+	phase("mutated")
+	for i := 0; i < c.N(3, 20); i++ {
 		g.truncationSweep(fmt.Sprintf("trunc-%d", i))
 	}
-	for i := 0; i < c.N(200, 3000); i++ {
+	phase("truncation")
+	for i := 0; i < c.N(200, 2000); i++ {
 		g.keyCase(fmt.Sprintf("keys-%d", i))
 	}
-	for i := 0; i < c.N(300, 5000); i++ {
+	phase("keys")
+	for i := 0; i < c.N(300, 3000); i++ {
 		g.b64Case(fmt.Sprintf("b64-%d", i), i%3 == 0)
 	}
-	for i := 0; i < c.N(400, 6000); i++ {
+	for i := 0; i < c.N(400, 4000); i++ {
 		g.b64Malformed(fmt.Sprintf("b64-malformed-%d", i))
 	}
-	for i := 0; i < c.N(150, 2000); i++ {
+	phase("b64")
+	for i := 0; i < c.N(150, 1200); i++ {
 		g.tunnelCase(fmt.Sprintf("tunnel-%d", i), i%3 == 0)
 	}
-	for i := 0; i < c.N(200, 3000); i++ {
+	for i := 0; i < c.N(200, 2000); i++ {
 		g.tunnelMalformed(fmt.Sprintf("tunnel-malformed-%d", i))
 	}
+	phase("tunnel")
 	runE2E(c, g)
 }
